@@ -108,6 +108,47 @@ def stores_to(E, fa, pred):
     return out
 
 
+def back_slice(fa, op, terminal):
+    """Backward data slice of an operand over every definition (moves, casts, references,
+    aggregates, binary operations, call arguments). `terminal(block, call_term)` may return a
+    hashable value for a call: that value is collected and the slice does not continue into the
+    call's arguments. Parameters end the slice as ('arg', n); constants as nothing."""
+    out, seen, work = set(), set(), [op]
+    while work:
+        o = work.pop()
+        pl = op_place(o)
+        if pl is None:
+            continue
+        for e in pl["p"]:
+            if isinstance(e, dict) and isinstance(e.get("i"), int):
+                work.append({"c": {"l": e["i"], "p": []}})
+        l = pl["l"]
+        if l in seen:
+            continue
+        seen.add(l)
+        ds = [d for d in fa.defs().get(l, []) if d[2] != "partial"]
+        if 1 <= l <= fa.arg_count and not ds:
+            out.add(("arg", l))
+            continue
+        for (b, i, kind, payload) in ds:
+            if kind == "call":
+                v = terminal(b, payload)
+                if v is not None:
+                    out.add(v)
+                else:
+                    work.extend(payload["args"])
+            else:
+                rv = payload
+                for key in ("op", "a", "b"):
+                    if key in rv and isinstance(rv[key], dict):
+                        work.append(rv[key])
+                if rv["k"] in ("ref", "rawptr", "discr", "len"):
+                    work.append({"c": rv["place"]})
+                if rv["k"] == "agg":
+                    work.extend(rv["ops"])
+    return out
+
+
 def value_defs(fa, local, depth=0, seen=None):
     """All defining rvalues/calls of a (possibly multiply-defined) local, following plain moves.
     Returns list of (bb, kind, payload)."""
